@@ -68,7 +68,7 @@ RegFile(c, a, b) ==
            ev == b.log[1]
            ptr == [i \in 1..np |-> ev.vals[i]]
            got == SubSeq(ev.vals, np + 1, Len(ev.vals))
-           exp == RegularRegs(c.cfg, c.pats, ptr, c.zeros)
+           exp == IF ("xdma" \in DOMAIN c /\ c.xdma = 1) THEN XdmaRegs(c.cfg, c.pats, ptr, c.zeros) ELSE RegularRegs(c.cfg, c.pats, ptr, c.zeros)
            ns == Len(exp)
            tail == c.tail     \* sequence of [name, mode ("eq" | "any" | "ge"), v]
            allnames == Names(exp) \o [k \in DOMAIN tail |-> tail[k].name] IN
